@@ -486,6 +486,13 @@ class Check:
         self.known = {f["key"]: f for f in load_known() if f.get("property") == pid and f.get("status") == "open"}
         os.makedirs(EVID, exist_ok=True)
         os.makedirs(REPLAYS, exist_ok=True)
+        # replay files of an earlier run of this check are stale
+        for f in os.listdir(REPLAYS):
+            if f.startswith(pid + "-"):
+                try:
+                    os.remove(os.path.join(REPLAYS, f))
+                except OSError:
+                    pass
 
     # coverage helpers
     def add(self, key, n=1):
